@@ -29,6 +29,9 @@ claimed = {
  "C07": dict(level="other", text="Bounded symbolic execution of the real Pratt parser with operator token kinds as solver variables (stub lexer), bracket structure compared with a reference splitter written from the operator table of the property statement; prefix/postfix/as/layout variants through the real lexer, exhaustive over selectors.",
              note="Operator sequences of 2 (quick) / 3 (thorough) binary operators over all 31 infix+assignment tokens; one prefix and one postfix per operand; `..` and statement-level layout outside; assignments with a non-place left-hand side may be rejected (accepted behaviour). Trusted: go/ssa, gosym, z3, reference splitter verifRefShape.",
              technique="bounded symbolic execution (go/ssa) + SMT (z3) vs reference precedence splitter", design="§2 C07"),
+ "C03": dict(level="other", text="Bounded symbolic execution of the real parser+analyzer over rule templates with selectors for type kinds, arities, operators and syntactic positions (explored exhaustively), plus Analyzer.TypeCheck against a reference relation on type trees.",
+             note="One fault per program; 17 rule templates, 9 type kinds, 7 positions; impl/template/trigger-callback rules and interactions of two faults are outside; operator admissibility is asserted only where the language definition is unambiguous (float % and float ** are not asserted). Selectors are concrete forks, so the solver's role here is limited to the engine's path bookkeeping. Trusted: go/ssa, gosym, the rule table in harness/homescript/zz_verif_rules.go.",
+             technique="bounded symbolic execution (go/ssa), exhaustive over template selectors", design="§2 C03"),
  "C05": dict(level="other", text="Bounded symbolic execution of lexer (and parser/analyzer as they are added) with Go run-time panics and step-bound overruns as path outcomes; within the stated bounds no input makes the code panic or fail to make progress.",
              note="Lexer step totality/progress on windows of K runes (quick 3 / thorough 5); Parser.Parse over every sequence of <= L tokens with symbolic kinds and an optional (sticky or consumed) lexer error, L = 3 quick / 5 thorough, step bound 300k as termination obligation (token kind formatting stubbed). Analyzer totality on edited programs: see evidence. 64 KiB / depth-1000 inputs are not executed (outside). Trusted: go/ssa, gosym, z3.",
              technique="bounded symbolic execution (go/ssa) + SMT (z3), panic/bound outcomes", design="§2 C05"),
